@@ -664,9 +664,10 @@ func c17(r *engine.Run) {
 		"kinds": []string{"deterministic", "bip44", "xpub", "collection"}}
 	r.Assumptions = append(r.Assumptions,
 		fmt.Sprintf("chains bounded at %d external / %d change addresses; batches and scans of 1..3", sp.maxLen[0], sp.maxLen[1]),
-		"reload = Serialize + the type's Loader (no file system), Lock/Unlock with sha256-xor; bip44 account 0 only",
+		"reload = Serialize + the type's Loader (no file system), Lock/Unlock with sha256-xor; the state search uses bip44 account 0 only, wallets with two accounts are covered by the sequence product of part M",
 		"independent derivations (model/walletref): original skycoin chain per the secp256k1.DeterministicKeyPairIterator comment, BIP39+BIP32+BIP44 (m/44'/8000'/0'/c/i, CKDpub for xpub) on math/big secp256k1; collection = address(pub(secret)) of the added keys",
 		"state merging is by the complete exported state; the decoder pointer is the only field left out")
 	_ = strings.Join
+	cov["two_account_wallets"] = c17Multi(r, sp.checks)
 	r.Finish(cov)
 }
